@@ -125,6 +125,10 @@ class RawPayloadDecoder(AbstractSimplePayloadDecoder):
 
             asn1Object = value
 
+        if asn1Object is noValue:
+            raise error.PyAsn1Error(
+                'No value inside the explicit tag %s' % (tagSet,))
+
         yield asn1Object
 
 
